@@ -408,7 +408,7 @@ func indexCandidates(s *sx, out map[string]bool, bound map[string]bool) {
 			str := t.String()
 			if len(str) < 80 {
 				out[str] = true
-			} else if len(str) < 140 {
+			} else if len(str) < 300 {
 				// long index terms (an index read from a ghost array of a long-named type) are kept apart:
 				// they are added after the regular candidates, never instead of them
 				out["\x00long:"+str] = true
